@@ -8,6 +8,11 @@ CHECKS = {
     text="Full proof: the Gallina transcription of merge_results/add_results is proved equal to a union_with form, for which clamped-sum, OR, max-length, order/grouping independence (every permutation and every binary tree), identity and monotonicity are theorems for all record lists; the model is tied to the code by running both on generated record lists and trees (incl. saturating sums, unequal vectors) on every run.",
     note="Trusted: Coq kernel, vm_compute for the correspondence evaluation, std++; the Rust harness and Python differ; BTreeMap/FxHashMap modelled as finite maps, u64 arithmetic written out.  No axioms (Print Assumptions: closed).",
     ref="6/C01"),
+ "C16": dict(
+    technique="Coq proof (induction over the source lines: loop flag recurrence = declarative start..stop region) + vm_compute correspondence with FileFilter::create and the filter application",
+    text="Full proof for the decision logic: for every sequence of source lines (each abstracted to the six regex verdicts), every coverage record and every line index inside the file, the line count is removed iff the line matches the line marker or lies in a start(inclusive)..stop(exclusive) region, independently the same for branches; numbers outside the file and all functions are untouched; no option or unreadable source = identity. Tied to the code by running FileFilter::create on generated sources (all marker placements, option subsets, LF/CRLF) and comparing filters and resulting records with the model and with an independent reading of the property.",
+    note="Trusted: Coq kernel, vm_compute (correspondence), regex crate (verdicts enter the model as data), harness re-implementation of split/strip (cross-checked by the Python reference), files < 2^32 lines. No axioms.",
+    ref="6/C16"),
 }
 def main():
     m = {
